@@ -86,7 +86,8 @@ def _val(toks, i):
             return rec, i + 1
         while True:
             name = toks[i][1]
-            assert toks[i + 1] == ("p", "|->"), toks[i:i + 3]
+            if toks[i + 1] != ("p", "|->"):
+                raise ValueError("bad record field: %r" % (toks[i:i + 3],))
             v, i = _val(toks, i + 2)
             rec[name] = v
             if toks[i] == ("p", ","):
@@ -100,7 +101,8 @@ def _val(toks, i):
         i += 1
         while True:
             a, i = _val(toks, i)
-            assert toks[i] == ("p", ":>"), toks[i]
+            if toks[i] != ("p", ":>"):
+                raise ValueError("bad function literal: %r" % (toks[i],))
             b, i = _val(toks, i + 1)
             fn[a] = b
             if toks[i] == ("p", "@@"):
